@@ -159,7 +159,7 @@ def run_check(prop, tier, seed, replay=None):
         if replay:
             return mod.replay(ctx, replay)
         from . import decoy, mine
-        mine.SIZE_CAP = (1 << 21) + 64 if tier == 'thorough' else 70000
+        mine.SIZE_CAP = int(os.environ.get('VERIF_SIZE_CAP') or ((1 << 21) + 64 if tier == 'thorough' else (1 << 20) + 64))
         decoy.burst(full=True)   # other objects with other code tables / string indexes were at work before the check starts
         for _ in range(3):
             decoy.burst()
